@@ -466,3 +466,5 @@ MANIFEST = {
     'technique': 'dominance + path enumeration + term extraction against an RFC table + provenance + typestate',
     'design_ref': 'DESIGN.md 3/C02',
 }
+MANIFEST['note'] += (' Also decided here (necessary conditions shared between properties or added after the independent '
+                     'change rounds, DESIGN.md 8.7): proposal routines incl. key length in transform identity (from C11), pre-authentication states by name.')
